@@ -14,6 +14,9 @@
     needs at most `8·mu + 20` fuel (Lemmas/ParserExprSafe, FileParserLoops, FileParserBlocks).
   * `parse_err_at_token` — an error `err pos` is positioned at a token of the list or at the
     zero item (position 0): `t.errorf` only ever reads `t.token[0]`/`t.token[1]`.
+  * `parse_no_panic_of_wf`, `lex_wf`, `parse_source_no_panic` — no Go runtime panic: the parser
+    does not panic on tokens whose values are long enough for its slices, the lexer only sends
+    such tokens, hence lexer ∘ parser never panics, on any input.
   * `parse_source_total` — the composition with the lexer model terminates for every input.
   * `leak`: `fileEntry` drains or consumes everything except after a runtime panic.
 -/
@@ -105,6 +108,39 @@ theorem parse_no_panic_of_wf (pf : Bytes → Option UInt64) (items : List Item)
     simp only [Except.error.injEq] at hc
     subst hc
     exact h
+
+theorem wf_of_itemOK {it : Item} (h : Lex.itemOK it = true) : WFItem it := by
+  simp only [Lex.itemOK, Lex.sliced1, Lex.sliced2, Bool.and_eq_true, Bool.or_eq_true, Bool.not_eq_true',
+    decide_eq_true_eq, beq_eq_false_iff_ne, beq_iff_eq] at h
+  constructor
+  · intro ht hv
+    rcases h.1 with h1 | h1
+    · rcases ht with ht | ht | ht <;> simp [ht] at h1
+    · rw [hv] at h1; simp at h1
+  · intro ht
+    rcases h.2 with h2 | h2
+    · rcases ht with ht | ht <;> simp [ht] at h2
+    · exact h2
+
+/-- every token the lexer model sends is long enough for the slices the parser takes of it -/
+theorem lex_wf (input : Bytes) (exprMode : Bool) (is : List Item)
+    (h : Lex.lexAll input exprMode = .items is) : ∀ it ∈ is, WFItem it := by
+  obtain ⟨is', hl, _, _, hok⟩ := lex_items input exprMode
+  rw [h] at hl
+  simp only [Lex.LexResult.items.injEq] at hl
+  subst hl
+  intro it hit
+  exact wf_of_itemOK (hok it hit)
+
+theorem lexWF : LexWF := fun str is h => lex_wf str true is h
+
+/-- lexer model ∘ parser model: no Go runtime panic on any input -/
+theorem parse_source_no_panic (pf : Bytes → Option UInt64) (input : Bytes) :
+    parseSource pf input ≠ .error .panic := by
+  unfold parseSource
+  obtain ⟨is, hl, _⟩ := lex_items input false
+  rw [hl]
+  exact parse_no_panic_of_wf pf is (lex_wf input false is hl) lexWF
 
 /-- lexer model ∘ parser model terminates on every input -/
 theorem parse_source_total (pf : Bytes → Option UInt64) (input : Bytes) :
